@@ -7,9 +7,14 @@
    it was submitted with (the fee fields and the pending flag stay free values).  Both calls run under
    the client mutex (c.mtx), so a history is a list of operations in the order in which they hold it.
 
-   Frame fact of the combined machine, read off pkg/evmclient/evmclient.go (CancelTx) and NOT covered by a
-   correspondence run of its own: CancelTx never assigns c.nonce and never touches the monitor's
-   lastConfirmedNonce; the state of model/EvmSend.v is therefore left unchanged by a cancellation. *)
+   Frame fact of the combined machine: CancelTx never assigns c.nonce and never stores the monitor's
+   lastConfirmedNonce, so a cancellation leaves the state of model/EvmSend.v unchanged.  It is tied to the
+   source on every run: gen/Generated.v counts the assignments / ++ / -- of c.nonce inside CancelTx
+   (c10_cancel_writes_nonce) and records whether CancelTx calls lastConfirmedNonce.Store
+   (c10_cancel_touches_confirmed); the CancelTx step below consults [cancel_frame_ok], computed from these,
+   and leaves the state alone only when it holds -- otherwise the state after a cancellation is an
+   arbitrary value carried by the operation ([k_havoc]) and nothing below can be proved.  [cancel_frame_now]
+   is the reflexivity fact the theorems rest on: a CancelTx that starts writing c.nonce breaks it. *)
 From Coq Require Import List NArith ZArith Bool Lia.
 From MevVerif Require Import lib.Bytes gen.Generated.
 From MevVerif Require model.EvmSend model.Cancel proofs.EvmSend_proofs proofs.Cancel_proofs.
@@ -20,13 +25,29 @@ Module CA := MevVerif.model.Cancel.
 Module ESP := MevVerif.proofs.EvmSend_proofs.
 Module CAP := MevVerif.proofs.Cancel_proofs.
 
+(* ---- the frame of CancelTx, from the source ------------------------------------------------------------ *)
+Definition cancel_frame_ok : bool :=
+  (c10_cancel_writes_nonce =? 0)%N && negb c10_cancel_touches_confirmed.
+
+Lemma cancel_frame_now : c10_cancel_writes_nonce = 0%N /\ c10_cancel_touches_confirmed = false.
+Proof. split; reflexivity. Qed.
+
+Lemma cancel_frame_ok_now : cancel_frame_ok = true.
+Proof. unfold cancel_frame_ok. destruct cancel_frame_now as [-> ->]. reflexivity. Qed.
+
+(* positive controls of the same extractor kind: the writes the sender model does have are seen -- Send
+   increments c.nonce once (ES.send_with: c.nonce++), getNonce assigns it twice (ES.get_nonce: c1, c2) *)
+Lemma sender_writes_now : c10_send_writes_nonce = 1%N /\ c10_getnonce_writes_nonce = 2%N.
+Proof. split; reflexivity. Qed.
+
 (* one CancelTx call: which accepted transaction it names, and the free answers *)
 Record cancel_call := {
   k_target : nat;             (* position among the transactions accepted so far, oldest first *)
   k_pending : bool;           (* isPending as the node reports it *)
   k_price : Z; k_fee : Z; k_tip : Z;   (* GasPrice(), GasFeeCap(), GasTipCap() of the target *)
   k_tipans : CA.tipans; k_priceans : CA.priceans;
-  k_sign : bool; k_submit : bool }.
+  k_sign : bool; k_submit : bool;
+  k_havoc : ES.st             (* the sender's state after the call, were CancelTx to write it *) }.
 
 Inductive cop :=
 | OSend (rq : ES.request) (a : ES.answers)
@@ -63,31 +84,32 @@ Definition strip (ops : list cop) : list ES.op := flat_map send_op ops.
 
 (* [acc]: nonces of the transactions accepted so far, oldest first (a history value: the hashes Send has
    returned); it survives a client restart, the transactions being known to the node *)
-Fixpoint crun_from (cl : CA.client) (s : ES.st) (acc : list N) (ops : list cop) : list cev :=
+Fixpoint crun_gen (frame : bool) (cl : CA.client) (s : ES.st) (acc : list N) (ops : list cop) : list cev :=
   match ops with
   | [] => []
   | OCancel k :: r =>
       ECancel (CA.cancel cl (lookup_of acc k) (k_tipans k) (k_priceans k) (k_sign k) (k_submit k))
-      :: crun_from cl s acc r
+      :: crun_gen frame cl (if frame then s else k_havoc k) acc r
   | o :: r =>
       match send_op o with
       | [so] => let '(s', e) := ES.step_with ES.get_nonce s so in
-                ESend e :: crun_from cl s' (acc ++ newly_accepted e) r
-      | _ => crun_from cl s acc r
+                ESend e :: crun_gen frame cl s' (acc ++ newly_accepted e) r
+      | _ => crun_gen frame cl s acc r
       end
   end.
-Definition crun (cl : CA.client) (ops : list cop) : list cev := crun_from cl ES.init [] ops.
+(* the machine as the source is now: the frame flag is the one computed from gen/Generated.v *)
+Definition crun (cl : CA.client) (ops : list cop) : list cev := crun_gen cancel_frame_ok cl ES.init [] ops.
 
 Definition send_events (t : list cev) : list ES.tev :=
   flat_map (fun e => match e with ESend x => [x] | ECancel _ => [] end) t.
 
 (* ---- cancellations are transparent for the sender ------------------------------------------------- *)
 
-Lemma send_events_crun_from cl ops : forall s acc,
-  send_events (crun_from cl s acc ops) = ES.run_with ES.get_nonce s (strip ops).
+Lemma send_events_crun_gen cl ops : forall s acc,
+  send_events (crun_gen true cl s acc ops) = ES.run_with ES.get_nonce s (strip ops).
 Proof.
   induction ops as [|o r IH]; intros s acc; [reflexivity|].
-  destruct o as [rq a|v| |k]; cbn [crun_from send_op strip flat_map app].
+  destruct o as [rq a|v| |k]; cbn [crun_gen send_op strip flat_map app].
   - cbn [ES.run_with]. destruct (ES.step_with ES.get_nonce s (ES.Send rq a)) as [s' e].
     cbn [send_events flat_map app]. f_equal. apply IH.
   - cbn [ES.run_with]. destruct (ES.step_with ES.get_nonce s (ES.Conf v)) as [s' e].
@@ -99,9 +121,9 @@ Qed.
 
 (* What the node sees of the Send calls of a history with cancellations is exactly what it sees of the
    same history without them: a cancellation (accepted, rejected, refused) consumes no nonce and leaves
-   the counter where it was. *)
+   the counter where it was.  Rests on [cancel_frame_now] (through [cancel_frame_ok_now]). *)
 Theorem cancel_transparent cl ops : send_events (crun cl ops) = ES.run ES.init (strip ops).
-Proof. apply send_events_crun_from. Qed.
+Proof. unfold crun. rewrite cancel_frame_ok_now. apply send_events_crun_gen. Qed.
 
 Lemma send_events_app a b : send_events (a ++ b) = send_events a ++ send_events b.
 Proof. apply flat_map_app. Qed.
@@ -111,24 +133,24 @@ Proof. apply flat_map_app. Qed.
 Lemma accepted_cons e r : ES.accepted (e :: r) = newly_accepted e ++ ES.accepted r.
 Proof. destruct e as [p [| |n]| |]; reflexivity. Qed.
 
-Lemma reuse_from cl ops : forall s acc pre t b post,
-  crun_from cl s acc ops = pre ++ ECancel (CA.CSubmit t b) :: post ->
+Lemma reuse_from frame cl ops : forall s acc pre t b post,
+  crun_gen frame cl s acc ops = pre ++ ECancel (CA.CSubmit t b) :: post ->
   exists n, In n (acc ++ ES.accepted (send_events pre)) /\ CA.x_nonce t = Z.of_N n.
 Proof.
   induction ops as [|o r IH]; intros s acc pre t b post H.
   - destruct pre; discriminate.
   - assert (Hstep : forall so, send_op o = [so] ->
-              crun_from cl s acc (o :: r) =
+              crun_gen frame cl s acc (o :: r) =
               ESend (snd (ES.step_with ES.get_nonce s so)) ::
-              crun_from cl (fst (ES.step_with ES.get_nonce s so))
+              crun_gen frame cl (fst (ES.step_with ES.get_nonce s so))
                         (acc ++ newly_accepted (snd (ES.step_with ES.get_nonce s so))) r).
     { intros so Hso. destruct o; cbn [send_op] in Hso; try discriminate; injection Hso as <-;
-        cbn [crun_from send_op]; destruct (ES.step_with _ _ _); reflexivity. }
+        cbn [crun_gen send_op]; destruct (ES.step_with _ _ _); reflexivity. }
     destruct o as [rq a|v| |k].
     1-3: (rewrite (Hstep _ eq_refl) in H; destruct pre as [|e0 pre']; [discriminate|];
           injection H as <- H; apply IH in H; destruct H as (n & Hin & Hn); exists n; split; [|exact Hn];
           cbn [send_events flat_map app]; rewrite accepted_cons, app_assoc; exact Hin).
-    cbn [crun_from] in H. destruct pre as [|e0 pre'].
+    cbn [crun_gen] in H. destruct pre as [|e0 pre'].
     + injection H as H _. apply CAP.shape in H.
       destruct H as (o & sug & Hl & _ & _ & _ & Hn & _). unfold lookup_of in Hl.
       destruct (nth_error acc (k_target k)) as [n|] eqn:E; [|discriminate].
@@ -137,13 +159,13 @@ Proof.
       cbn [send_events flat_map app]. exact Hin.
 Qed.
 
-Lemma cancel_shape_from cl ops : forall s acc t b,
-  In (ECancel (CA.CSubmit t b)) (crun_from cl s acc ops) ->
+Lemma cancel_shape_from frame cl ops : forall s acc t b,
+  In (ECancel (CA.CSubmit t b)) (crun_gen frame cl s acc ops) ->
   CA.x_chain t = CA.chain cl /\ CA.x_to t = CA.owner cl /\
   CA.x_value t = 0%Z /\ CA.x_data t = [] /\ CA.x_gas t = 21000%Z.
 Proof.
   induction ops as [|o r IH]; intros s acc t b Hin; [destruct Hin|].
-  destruct o as [rq a|v| |k]; cbn [crun_from send_op] in Hin.
+  destruct o as [rq a|v| |k]; cbn [crun_gen send_op] in Hin.
   1-3: (destruct (ES.step_with _ _ _); destruct Hin as [Hin|Hin]; [discriminate|exact (IH _ _ _ _ Hin)]).
   destruct Hin as [Hin|Hin]; [|exact (IH _ _ _ _ Hin)].
   injection Hin as Hin. apply CAP.shape in Hin.
@@ -159,8 +181,8 @@ Theorem cancel_reuses_submitted_nonce cl ops pre t b post :
   CA.x_chain t = CA.chain cl /\ CA.x_to t = CA.owner cl /\
   CA.x_value t = 0%Z /\ CA.x_data t = [] /\ CA.x_gas t = 21000%Z.
 Proof.
-  intros H. split; [exact (reuse_from cl ops ES.init [] pre t b post H)|].
-  apply (cancel_shape_from cl ops ES.init [] t b). unfold crun in H. rewrite H.
+  intros H. split; [exact (reuse_from _ cl ops ES.init [] pre t b post H)|].
+  apply (cancel_shape_from cancel_frame_ok cl ops ES.init [] t b). unfold crun in H. rewrite H.
   apply in_or_app. right. left. reflexivity.
 Qed.
 
@@ -194,6 +216,27 @@ Proof.
   exact (ESP.next_exact _ _ _ _ _ _ _ _ Hw H Hn Ha).
 Qed.
 
+(* The frame fact is needed: in the machine whose CancelTx step may write the sender's state (frame flag
+   false) a cancellation that resets the counter makes the next Send reuse nonce 5. *)
+Lemma frame_needed :
+  exists cl ops,
+    ES.wf_ops (strip ops) /\
+    send_events (crun_gen false cl ES.init [] ops) <> ES.run ES.init (strip ops) /\
+    ES.accepted (send_events (crun_gen false cl ES.init [] ops)) = [5; 5]%N.
+Proof.
+  exists {| CA.owner := []; CA.chain := 1 |}.
+  exists [OSend {| ES.gas_given := true; ES.price_given := true |}
+                {| ES.pending := Some 5%N; ES.est_ok := true; ES.tip_ok := true; ES.price_ok := true;
+                   ES.sign_ok := true; ES.submit_ok := true |};
+          OCancel {| k_target := 0; k_pending := true; k_price := 1; k_fee := 1; k_tip := 1;
+                     k_tipans := CA.TipOk 1; k_priceans := CA.PriceErr; k_sign := true; k_submit := true;
+                     k_havoc := ES.init |};
+          OSend {| ES.gas_given := true; ES.price_given := true |}
+                {| ES.pending := Some 5%N; ES.est_ok := true; ES.tip_ok := true; ES.price_ok := true;
+                   ES.sign_ok := true; ES.submit_ok := true |}].
+  split; [repeat constructor|]. split; [vm_compute; discriminate|vm_compute; reflexivity].
+Qed.
+
 (* ---- non-vacuity ------------------------------------------------------------------------------------ *)
 Section Example.
   Let cl : CA.client := {| CA.owner := repeat 7%N 20; CA.chain := 17864 |}.
@@ -203,7 +246,8 @@ Section Example.
   Let rq : ES.request := {| ES.gas_given := false; ES.price_given := false |}.
   Let kc (k : nat) : cancel_call :=
     {| k_target := k; k_pending := true; k_price := 10; k_fee := 10; k_tip := 2;
-       k_tipans := CA.TipOk 3; k_priceans := CA.PriceErr; k_sign := true; k_submit := true |}.
+       k_tipans := CA.TipOk 3; k_priceans := CA.PriceErr; k_sign := true; k_submit := true;
+       k_havoc := ES.init |}.
   (* two sends (nonces 5, 6), the first is cancelled twice, a third send gets nonce 7 *)
   Let ops : list cop := [OSend rq (ok 5); OSend rq (ok 5); OCancel (kc 0); OCancel (kc 0); OSend rq (ok 5); OCancel (kc 7)].
   Example ex_chain :
@@ -214,213 +258,3 @@ Section Example.
                   | _ => None end) (crun cl ops) = [Some 5; Some 6; Some 5; Some 5; Some 7; None]%Z.
   Proof. split; [repeat constructor|vm_compute; reflexivity]. Qed.
 End Example.
-
-(* ================================================================================================== *)
-(* C11 composed with its neighbours.  In model/Registry.v three things are oracle values: the verdict *)
-(* of the request validator and the result of big.Int.SetString (RPC glue), the result of client.Send  *)
-(* (RegisterProvider / PrepayAllowance), and -- seen from the handshake -- the answer of               *)
-(* CheckProviderRegistered.  Each is instantiated below by the model that owns it.                     *)
-(* ================================================================================================== *)
-From Coq Require Import String.
-From MevVerif Require lib.Abi model.Rules model.Eip712 model.Registry model.Handshake
-  proofs.Rules_proofs proofs.Registry_proofs proofs.Handshake_proofs.
-
-Module RG := MevVerif.model.Registry.
-Module RGP := MevVerif.proofs.Registry_proofs.
-Module RU := MevVerif.model.Rules.
-Module HS := MevVerif.model.Handshake.
-Module HSP := MevVerif.proofs.Handshake_proofs.
-
-(* ---- (a) C11 o C19: the amount text of RegisterStake / PrepayAllowance ---------------------------- *)
-Open Scope N_scope.
-
-(* an all-digit spelling is read by big.Int.SetString(s, 10) as the same number *)
-Lemma parse_amount_of_parse_dec s v : parse_dec s = Some v -> Eip712.parse_amount s = Some (Z.of_N v).
-Proof.
-  intros H. unfold Eip712.parse_amount.
-  destruct s as [|c r]; [cbn in H; discriminate|].
-  assert (Hd : is_digit c = true).
-  { unfold parse_dec in H. destruct (all_digits (c :: r)) eqn:A; [|discriminate].
-    cbn in A. apply andb_true_iff in A. tauto. }
-  unfold is_digit in Hd.
-  destruct (N.eqb_spec c 43) as [->|N1]; [cbn in Hd; discriminate|].
-  destruct (N.eqb_spec c 45) as [->|N2]; [cbn in Hd; discriminate|].
-  destruct c as [|p]; [rewrite H; reflexivity|].
-  do 6 (destruct p as [p|p|]; try (rewrite H; reflexivity)); exfalso; (apply N1 + apply N2); reflexivity.
-Qed.
-
-(* the RPC method on the request's amount text: validator = the published rule of StakeRequest /
-   PrepayRequest (model/Rules.v, the rule texts are compared with the compiled descriptors in every C19
-   run), parser = big.Int.SetString(amount, 10) (model/Eip712.v part I) *)
-Definition svc_register_text (kec : bytes -> bytes) (cfg : RG.registry) (reg owner amount : bytes)
-           (s : RG.sendres) (w : RG.receiptres) (a : RG.callres) : list RG.effect * RG.svcres :=
-  RG.svc_register kec cfg reg owner (RU.stake_ok amount) (Eip712.parse_amount amount) s w a.
-
-Lemma accepted_amount_parses amount :
-  RU.stake_ok amount = true ->
-  Eip712.parse_amount amount = Some (Z.of_N (dec_value amount)) /\
-  0 < dec_value amount < 18446744073709551616.
-Proof.
-  intros H. apply Rules_proofs.stake_ok_spec in H. destruct H as (Hne & Hd & Hv).
-  split; [|exact Hv]. apply parse_amount_of_parse_dec. apply Rules_proofs.parse_dec_some. auto.
-Qed.
-
-(* The request is refused (nothing sent) exactly when the amount breaks the published rule -- the
-   "cannot parse" refusal behind the validator is unreachable -- and otherwise the value of the one
-   transaction sent is the number the text spells (positive, below 2^64). *)
-Theorem rpc_amount_is_text kec cfg reg owner amount s w a :
-  (RU.stake_ok amount = false ->
-     svc_register_text kec cfg reg owner amount s w a = ([], RG.SvcInvalidArgument)) /\
-  (RU.stake_ok amount = true ->
-     0 < dec_value amount < 18446744073709551616 /\
-     svc_register_text kec cfg reg owner amount s w a =
-       RG.svc_register kec cfg reg owner true (Some (Z.of_N (dec_value amount))) s w a /\
-     RG.sends (fst (svc_register_text kec cfg reg owner amount s w a)) =
-       [{| RG.tx_to := reg; RG.tx_value := Some (Z.of_N (dec_value amount));
-           RG.tx_data := Abi.selector kec (Abi.method_sig (RG.r_register cfg) []); RG.tx_gas := false |}]).
-Proof.
-  split; intros H; unfold svc_register_text.
-  - rewrite H. reflexivity.
-  - destruct (accepted_amount_parses amount H) as (Hp & Hv). rewrite H, Hp.
-    split; [exact Hv|]. split; [reflexivity|].
-    destruct (RGP.register_value kec cfg reg (Some (Z.of_N (dec_value amount))) s w) as (Hs & _ & _).
-    unfold RG.svc_register. cbn [negb].
-    destruct (RG.register kec cfg reg (Some (Z.of_N (dec_value amount))) s w) as [t1 r] eqn:E.
-    cbn [fst] in Hs. destruct r as [u|c|]; cbn [fst]; try exact Hs.
-    unfold RG.get_stake. destruct a as [|b]; [|destruct (Abi.decode_uint256 b)]; cbn [fst];
-      unfold RG.sends in *; rewrite flat_map_app, Hs; reflexivity.
-Qed.
-
-(* ---- (b) C11 o C08: RegisterProvider / PrepayAllowance through the sender's Send -------------------- *)
-
-(* the TxRequest as Send sees it: no gas limit, no gas price given (tx_gas = false for every request the
-   registries build: C11_value) *)
-Definition request_of (r : RG.txreq) : ES.request :=
-  {| ES.gas_given := RG.tx_gas r; ES.price_given := RG.tx_gas r |}.
-(* client.Send returns (hash, nil) exactly when the node took the transaction *)
-Definition sendres_of (hash_of : N -> bytes) (r : ES.result) : RG.sendres :=
-  match r with ES.Accepted n => RG.SHash (hash_of n) | _ => RG.SErr end.
-
-(* A stake / prepay reports success only if its one transaction was accepted by the node under a nonce n
-   of the sender -- every external call of that Send succeeded, the gas estimate and the price suggestion
-   included, and n passed the in-flight window -- and was mined with status 1; the sender's counter then
-   stands at n+1.  When Send fails the registry reports an error and the counter was not advanced past
-   the nonce tried. *)
-Theorem register_through_sender kec cfg reg amount hash_of ctr cf a w :
-  let rq := request_of (RG.send_req kec cfg reg amount) in
-  let sr := ES.send ctr cf rq a in
-  (snd (RG.register kec cfg reg amount (sendres_of hash_of (snd sr)) w) = Ok tt ->
-     exists n, snd sr = ES.Accepted n /\ w = RG.WReceipt 1 /\ fst sr = ((n + 1) mod ES.w64)%N /\
-       ES.allow_nonce cf n = true /\
-       ES.pending a <> None /\ ES.est_ok a = true /\ ES.tip_ok a = true /\ ES.price_ok a = true /\
-       ES.sign_ok a = true /\ ES.submit_ok a = true) /\
-  ((forall n, snd sr <> ES.Accepted n) ->
-     snd (RG.register kec cfg reg amount (sendres_of hash_of (snd sr)) w) = Err 1 /\
-     forall p, ES.pending a = Some p -> fst sr = fst (ES.get_nonce ctr p)).
-Proof.
-  intros rq sr. split.
-  - intros H. apply RGP.register_status in H. destruct H as (h & Hs & Hw).
-    destruct (snd sr) as [| m |n] eqn:E; try discriminate. exists n. split; [reflexivity|]. split; [exact Hw|].
-    assert (Hsr : sr = (fst sr, ES.Accepted n)) by (rewrite <- E; destruct sr; reflexivity).
-    destruct (ESP.send_needs_all_calls _ _ _ _ _ _ _ Hsr) as (H1 & H2 & H3 & H4 & H5 & H6).
-    subst sr. unfold ES.send, ES.send_with in Hsr |- *.
-    destruct (ES.pending a) as [p|]; [|congruence].
-    destruct (ES.get_nonce ctr p) as [c1 m] eqn:G.
-    destruct (ES.allow_nonce cf m) eqn:AL; cbn [negb] in *; [|discriminate].
-    destruct (ES.new_tx_ok rq a); cbn [negb] in *; [|discriminate].
-    destruct (ES.sign_ok a); cbn [negb] in *; [|discriminate].
-    destruct (ES.submit_ok a); cbn [negb] in *; [|discriminate].
-    cbn [fst snd] in *. injection Hsr as Hsr. subst m.
-    unfold ES.get_nonce in G. injection G as G1 G2. rewrite G1 in G2. subst c1.
-    rewrite G2. repeat split; auto; try (apply H2; reflexivity); try (apply H4; reflexivity).
-  - intros Hn. split.
-    + destruct (snd sr) as [| m |n] eqn:E; try reflexivity. exfalso. exact (Hn n eq_refl).
-    + intros p Hp. subst sr. unfold ES.send, ES.send_with in *. rewrite Hp in *.
-      destruct (ES.get_nonce ctr p) as [c1 m].
-      destruct (negb (ES.allow_nonce cf m)); [reflexivity|].
-      destruct (negb (ES.new_tx_ok rq a)); [reflexivity|].
-      destruct (negb (ES.sign_ok a)); [reflexivity|].
-      destruct (negb (ES.submit_ok a)); [reflexivity|].
-      exfalso. exact (Hn m eq_refl).
-Qed.
-
-(* ---- (c) C11 o C04: the handshake's stake question is CheckProviderRegistered ------------------------ *)
-
-(* register.CheckProviderRegistered(a) of the provider registry, with the answers the chain node gives to
-   its two reads at the moment of the handshake (at most one question per handshake: C04_lookups) *)
-Definition registry_check (kec : bytes -> bytes) (reg : bytes) (a_min a_stake : RG.callres) : bytes -> bool :=
-  fun a => snd (RG.check kec RG.provider_registry reg a a_min a_stake).
-
-(* A peer is registered or announced as a provider only if, during that very handshake, both reads of the
-   provider registry succeeded and decoded and the stake read for the peer's proven address was at least
-   the minimum; the two reads are minStake() and checkStake(A) on the configured contract.  Any failed or
-   malformed read refuses the provider. *)
-Theorem provider_enrolled_only_if_staked kec reg a_min a_stake c o wfail script has_notifier add A :
-  HS.registered o = registry_check kec reg a_min a_stake ->
-  In (HS.ERegister A HS.type_provider) (HS.inbound c o wfail script has_notifier add) \/
-  In (HS.ENotify A HS.type_provider) (HS.inbound c o wfail script has_notifier add) ->
-  HS.addr_of_pid o = HS.POk A /\ HS.lookups (HS.handle c o wfail script) = [A] /\
-  (exists m s bm bs, a_min = RG.CBytes bm /\ a_stake = RG.CBytes bs /\
-       Abi.decode_uint256 bm = Some m /\ Abi.decode_uint256 bs = Some s /\ m <= s) /\
-  fst (RG.check kec RG.provider_registry reg A a_min a_stake) =
-    [RG.ECall (RG.read_req kec reg (RG.r_min RG.provider_registry) []);
-     RG.ECall (RG.read_req kec reg (RG.r_stake RG.provider_registry) [Abi.VAddress A])].
-Proof.
-  intros Ho H. destruct (HSP.responder_sound c o wfail script has_notifier add A HS.type_provider H)
-    as (role & token & sig & ea & er & f1 & f2 & rest & _ & _ & _ & _ & Hp & Hs & _).
-  destruct (Hs eq_refl) as (Hr & Hl). split; [exact Hp|]. split; [exact Hl|].
-  rewrite Ho in Hr. unfold registry_check in Hr.
-  apply RGP.check_spec in Hr. destruct Hr as (m & s & (bm & bs & -> & -> & E1 & E2) & Hle).
-  split; [exists m, s, bm, bs; auto|].
-  rewrite RGP.check_trace, E1. reflexivity.
-Qed.
-
-Theorem unreadable_registry_refuses_provider kec reg a_min a_stake c o wfail f1 rest token sig a :
-  HS.registered o = registry_check kec reg a_min a_stake ->
-  (a_min = RG.CErr \/ (exists b, a_min = RG.CBytes b /\ Abi.decode_uint256 b = None) \/
-   a_stake = RG.CErr \/ (exists b, a_stake = RG.CBytes b /\ Abi.decode_uint256 b = None)) ->
-  HS.as_req f1 = Some (HS.provider_string, token, sig) ->
-  HS.verify o sig (HS.provider_string ++ token) = HS.VOk true a -> HS.addr_of_pid o = HS.POk a ->
-  HS.res (HS.handle c o wfail (f1 :: rest)) = HS.Refuse HS.RStake.
-Proof.
-  intros Ho Hbad Hf Hv Hp. unfold HS.handle. rewrite Hf. unfold HS.verify_req, HS.signed_data.
-  rewrite Hv, Hp, !Bytes_proofs.bytes_eqb_refl, Ho. unfold registry_check.
-  rewrite (RGP.check_fail_closed kec RG.provider_registry reg a a_min a_stake Hbad). reflexivity.
-Qed.
-
-(* non-vacuity *)
-Section Example11.
-  Let kec : bytes -> bytes := fun m => firstn 4 (m ++ [1; 2; 3; 4]).
-  Let reg : bytes := repeat 9 20.
-  Example ex_rpc_amount :
-    RU.stake_ok (bos "0250") = true /\
-    svc_register_text kec RG.provider_registry reg (repeat 7 20) (bos "0250") (RG.SHash [5]) (RG.WReceipt 1)
-      (RG.CBytes (be 32 250)) =
-    ([RG.ESend {| RG.tx_to := reg; RG.tx_value := Some 250%Z;
-                  RG.tx_data := Abi.selector kec (Abi.method_sig (RG.r_register RG.provider_registry) []);
-                  RG.tx_gas := false |};
-      RG.EWait [5];
-      RG.ECall (RG.read_req kec reg (RG.r_stake RG.provider_registry) [Abi.VAddress (repeat 7 20)])],
-     RG.SvcOk 250).
-  Proof. split; vm_compute; reflexivity. Qed.
-
-  Let ok (p : N) : ES.answers :=
-    {| ES.pending := Some p; ES.est_ok := true; ES.tip_ok := true; ES.price_ok := true;
-       ES.sign_ok := true; ES.submit_ok := true |}.
-  Example ex_register_through_sender :
-    snd (RG.register kec RG.provider_registry reg (Some 250%Z)
-           (sendres_of (fun n => [n]) (snd (ES.send 0 0 (request_of (RG.send_req kec RG.provider_registry reg (Some 250%Z))) (ok 3))))
-           (RG.WReceipt 1)) = Ok tt.
-  Proof. vm_compute. reflexivity. Qed.
-
-  Let cfgh : HS.config := {| HS.own_type := 2; HS.own_token := [5]; HS.own_addr := [9; 9]; HS.own_sig := [8] |}.
-  Let orc : HS.oracles :=
-    {| HS.verify := fun _ _ => HS.VOk true (repeat 7 20); HS.addr_of_pid := HS.POk (repeat 7 20);
-       HS.registered := registry_check kec reg (RG.CBytes (be 32 100)) (RG.CBytes (be 32 250)) |}.
-  Let req : HS.frame := {| HS.as_req := Some (HS.provider_string, [5], [7]); HS.as_resp := None |}.
-  Let echo : HS.frame := {| HS.as_req := None; HS.as_resp := Some ([9; 9], HS.role_string 2) |}.
-  Example ex_provider_enrolled :
-    HS.inbound cfgh orc (fun _ => false) [req; echo] true HS.Added =
-    [HS.ERegister (repeat 7 20) HS.type_provider; HS.ENotify (repeat 7 20) HS.type_provider].
-  Proof. vm_compute. reflexivity. Qed.
-End Example11.
